@@ -58,6 +58,25 @@ MUTANTS = [
     ("dict_order_cli", "src/compress_cmd.rs", "rebuild_order: chunk_order.iter().map(|&index| index as u32).collect(),", "rebuild_order: chunk_order.iter().map(|&index| index as u32 + 0 * index as u32 + (index == 1) as u32).collect(),", ["C11"]),
     ("remaining_hdr", "bitar/src/archive.rs", "dictionary_size.checked_add(8 + 64)", "dictionary_size.checked_add(8 + 32)", ["C15", "C04"]),
     ("prealloc", "bitar/src/archive_reader/io_reader.rs", "BytesMut::with_capacity(std::cmp::min(size, MAX_PREALLOCATION))", "BytesMut::with_capacity(std::cmp::max(size, MAX_PREALLOCATION))", ["C15"]),
+    # --- whole-body units (readers, streaming chunker, CLI feed loop, chunk_stream) ---
+    ("io_seek_plus1", "bitar/src/archive_reader/io_reader.rs", "io::SeekFrom::Start(read_at.offset)", "io::SeekFrom::Start(read_at.offset + 1)", ["C08"]),
+    ("io_offset_assign", "bitar/src/archive_reader/io_reader.rs", "Ok(()) => self.buf_offset += buf.filled().len(),", "Ok(()) => self.buf_offset = buf.filled().len(),", ["C08"]),
+    ("io_no_truncate", "bitar/src/archive_reader/io_reader.rs", "                chunk.truncate(read_at.size);\n", "", ["C08"]),
+    ("io_resize_plus", "bitar/src/archive_reader/io_reader.rs", "self.buf.resize(read_at.size, 0);", "self.buf.resize(read_at.size + 1, 0);", ["C08"]),
+    ("readat_no_truncate", "bitar/src/archive_reader/io_reader.rs", "        buf.truncate(size);\n", "", ["C08"]),
+    ("http_no_clear", "bitar/src/archive_reader/http_reader.rs", "                self.chunk_buf.clear();\n", "", ["C08"]),
+    ("http_deliver_gt", "bitar/src/archive_reader/http_reader.rs", "if self.chunk_buf.len() >= next.size {", "if self.chunk_buf.len() > next.size {", ["C08", "C15"]),
+    ("http_no_decrement", "bitar/src/archive_reader/http_reader.rs", "                self.num_adjacent_reads -= 1;\n", "", ["C07", "C08"]),
+    ("retry_no_reset", "bitar/src/archive_reader/http_range_request.rs", "                        self.state = RequestState::Delay(Box::pin(sleep(self.retry_delay)));\n", "", ["C08"]),
+    ("retry_off_by_one", "bitar/src/archive_reader/http_range_request.rs", "                    if self.retry_count == 0 {\n                        return Poll::Ready(Some(Err(err)));", "                    if self.retry_count <= 1 {\n                        return Poll::Ready(Some(Err(err)));", ["C08"]),
+    ("no_truncate_surplus", "bitar/src/archive_reader/http_range_request.rs", "                        item.truncate(usize::try_from(self.size).unwrap_or(usize::MAX));\n", "", ["C15"]),
+    ("until_err_no_end", "bitar/src/archive.rs", "                self.end = true;\n", "", ["C04"]),
+    ("feed_skip_err", "src/clone_cmd.rs", "        let verified = result?;\n        let wc = output.feed(&verified).await?;", "        let verified = match result { Ok(v) => v, Err(_) => continue };\n        let wc = output.feed(&verified).await?;", ["C04"]),
+    ("fetch_negated", "bitar/src/archive.rs", ".filter(|cd| chunks.contains(&cd.checksum))", ".filter(|cd| !chunks.contains(&cd.checksum))", ["C07"]),
+    ("fetch_source_size", "bitar/src/archive.rs", ".map(|cd| ChunkOffset::new(cd.archive_offset, cd.archive_size))", ".map(|cd| ChunkOffset::new(cd.archive_offset, cd.source_size as usize))", ["C07", "C17"]),
+    ("pair_wrong_desc", "bitar/src/archive.rs", "let descriptor = descriptors[index];", "let descriptor = descriptors[0];", ["C17", "C04"]),
+    ("hdr_slice_9", "bitar/src/archive.rs", "u64::from_le_bytes(header[offs..(offs + 8)].try_into().unwrap())", "u64::from_le_bytes(header[offs..(offs + 9)].try_into().unwrap())", ["C15"]),
+    ("benign_stream_no_reserve", "bitar/src/chunker/streaming_chunker.rs", "                me.buf.reserve(REFILL_SIZE);\n", "                ();\n", ["C09", "C15"]),
     ("io_seek_arg", "bitar/src/archive_reader/io_reader.rs", "start_seek(io::SeekFrom::Start(read_at.offset))", "start_seek(io::SeekFrom::Start(read_at.offset + self.buf_offset as u64))", ["C08"]),
     ("io_progress", "bitar/src/archive_reader/io_reader.rs", "Ok(()) => self.buf_offset += buf.filled().len(),", "Ok(()) => self.buf_offset = buf.filled().len(),", ["C08"]),
     ("retry_budget", "bitar/src/archive_reader/http_range_request.rs", "                    if self.retry_count == 0 {\n                        return Poll::Ready(Some(Err(err)));", "                    if self.retry_count <= 1 {\n                        return Poll::Ready(Some(Err(err)));", ["C08"]),
@@ -101,6 +120,8 @@ def main():
                 continue
             r = run([os.path.join(ROOT, "check"), prop, "--repo", SCRATCH])
             status = {0: "MISSED", 1: "caught", 2: "undecided"}.get(r.returncode, "rc=%d" % r.returncode)
+            if name.startswith("benign_"):      # behaviour-preserving: the good outcome is "no alarm"
+                status = {0: "no-alarm", 1: "FALSE-ALARM", 2: "undecided"}.get(r.returncode, status)
             ob = [ln for ln in r.stdout.split("\n") if ln.startswith("obligation failed")]
             row["checks"][prop] = {"status": status, "obligations": ob[:3], "stderr": r.stderr[-300:] if r.returncode == 2 else ""}
             print("%-20s %s %-9s %s" % (name, prop, status, (ob[0] if ob else r.stderr.strip()[-150:])))
